@@ -54,11 +54,17 @@ func randFiles(r *rng) []repository.Hash {
 // storeFilesIn makes attached files real blobs of the given repository.
 func storeFilesIn(repo repository.RepoData) func() {
 	old := fileSource
+	var seen []repository.Hash
 	fileSource = func(r *rng) repository.Hash {
+		// the same file is often attached again (a logo, a quoted screenshot): one time in three
+		if len(seen) > 0 && r.chance(1, 3) {
+			return pickOne(r, seen)
+		}
 		h, err := repo.StoreData([]byte("attachment " + randHexId(r, 12)))
 		if err != nil {
 			panic(err)
 		}
+		seen = append(seen, h)
 		return h
 	}
 	return func() { fileSource = old }
